@@ -181,7 +181,21 @@ func AwaitRegistration(mc *rig.MemConn) bool {
 }
 
 // waitCh waits for ch with the long watchdog.
-func waitCh(ch <-chan struct{}) bool {
+func waitCh(ch <-chan struct{}) bool { return waitChOpt(ch, nil) }
+
+// waitChOpt is waitCh with the dead-state proofs taken under the options opt() returns at that moment (e.g.
+// tolerating keep-alive tickers while no write fault is armed); a census that a keep-alive tick disturbed is retaken.
+func waitChOpt(ch <-chan struct{}, opt func() rig.DeadOpt) bool {
+	prove := func() bool { return rig.ProveDead(rig.DeadInterval).Dead }
+	if opt != nil {
+		prove = func() bool {
+			ds := rig.ProveDeadOpt(rig.DeadInterval, opt())
+			for try := 0; try < 8 && !ds.Dead && strings.HasPrefix(ds.Reason, "census changed"); try++ {
+				ds = rig.ProveDeadOpt(rig.DeadInterval, opt())
+			}
+			return ds.Dead
+		}
+	}
 	deadline := time.Now().Add(WaitLong)
 	for {
 		t := time.NewTimer(rig.DeadPollEvery)
@@ -192,7 +206,7 @@ func waitCh(ch <-chan struct{}) bool {
 		case <-t.C:
 			// a proven dead state ends the wait at once: nothing can ever wake it — unless what is awaited
 			// happened just before everything went quiet (timer and channel both ready): look once more
-			if time.Now().After(deadline) || rig.ProveDead(rig.DeadInterval).Dead {
+			if time.Now().After(deadline) || prove() {
 				select {
 				case <-ch:
 					return true
